@@ -50,6 +50,22 @@ def peekIsCustom (s : Stream.MemR) : Except Err Bool × Stream.MemR :=
   | .ok (b, s') => (.ok (decide (b = tagPBMP)), s')
   | .error e => (.error e, s)
 
+/-! ## `TilesetHeader::Validate`, `PpalHeader::Validate` — the two header guards of `ReadCustomTileset`
+
+Named so that the lemmas about the C++ translated on every run (`Op2Proofs/Props/C09_Gen.lean`) and the reader `Rd.custom` below refer
+to the *same* definition: a tag is the four bytes read, the other fields are the `uint32_t` values read. -/
+
+/-- `TilesetHeader::Validate` does not throw: section tag `head`, section length 20, width 32, height a multiple of 32 and (D22) at most
+    INT32_MAX, tag count 2 -/
+def tilesetHeaderOk (tag : Bytes) (len tagCount pw ph : Nat) : Bool :=
+  decide (tag = tagHead ∧ len = headSectionSize ∧ pw = pixelWidth ∧ ph % heightMultiple = 0 ∧
+          ph ≤ 2147483647 ∧ tagCount = headTagCount)
+
+/-- `PpalHeader::Validate` does not throw: section tag `PPAL` of length 1048, inner section tag `head` of length 4, tag count 1 -/
+def ppalHeaderOk (ppalTag : Bytes) (plen : Nat) (headTag : Bytes) (hlen tagCount : Nat) : Bool :=
+  decide (ppalTag = tagPPAL ∧ plen = ppalSectionSize ∧ headTag = tagHead ∧ hlen = ppalHeadSectionSize ∧
+          tagCount = ppalTagCount)
+
 /-! ## `ReadCustomTileset` -/
 
 namespace Rd
@@ -68,14 +84,12 @@ def custom : Parser (Out Bmp) :=
   Parser.bind Parser.u32 fun ph =>
   Parser.bind Parser.u32 fun bd =>
   Parser.bind Parser.u32 fun _flags =>
-  Parser.bind (guard (decide (head.1 = tagHead ∧ head.2 = headSectionSize ∧ pw = pixelWidth ∧ ph % heightMultiple = 0 ∧
-                              ph ≤ 2147483647 ∧ tagCount = headTagCount))) fun _ =>
+  Parser.bind (guard (tilesetHeaderOk head.1 head.2 tagCount pw ph)) fun _ =>
   -- PpalHeader
   Parser.bind sectionHeader fun ppal =>
   Parser.bind sectionHeader fun phead =>
   Parser.bind Parser.u32 fun ptc =>
-  Parser.bind (guard (decide (ppal.1 = tagPPAL ∧ ppal.2 = ppalSectionSize ∧ phead.1 = tagHead ∧ phead.2 = ppalHeadSectionSize ∧
-                              ptc = ppalTagCount))) fun _ =>
+  Parser.bind (guard (ppalHeaderOk ppal.1 ppal.2 phead.1 phead.2 ptc)) fun _ =>
   -- palette section header
   Parser.bind sectionHeader fun pdata =>
   Parser.bind (guard (decide (pdata.1 = tagData ∧ pdata.2 = paletteSectionSize))) fun _ =>
